@@ -3,5 +3,5 @@ EXTENDS Trace_DataStore
 AllOps == {"split_obs", "split_channel", "split_time", "split_merge", "subset_obs", "subset_channel",
            "subset_time", "sort_by", "merge", "odd_even", "nested_odd_even", "bin_time",
            "time_as_observations", "time_as_channels", "df", "copy", "saveload", "dict",
-           "average_by", "tensor", "drop"}
+           "average_by", "tensor", "average", "drop"}
 =============================================================================
